@@ -5,6 +5,7 @@ package checks
 import (
 	"encoding/json"
 	"fmt"
+	"hash/fnv"
 	"os"
 	"sort"
 	"strings"
@@ -183,6 +184,8 @@ func c12Signature(name, want, got string) string {
 	return name + ":length-differs"
 }
 
+func h64s(s string) uint64 { h := fnv.New64a(); h.Write([]byte(s)); return h.Sum64() }
+
 func sameMultiset(a, b string) bool {
 	f := func(s string) string {
 		parts := strings.Split(s, "]")
@@ -207,7 +210,8 @@ func c12Run(c *core.Ctx) {
 			continue
 		}
 		k++
-		if !c.Mine(int64(k)) {
+		// quick: one scenario per worker; thorough: every worker takes its share of every scenario's schedule tree
+		if !c.Thorough() && !c.Mine(int64(k)) {
 			continue
 		}
 		if only := os.Getenv("VERIF_C12_ONLY"); only != "" && only != sc.Name {
@@ -216,6 +220,9 @@ func c12Run(c *core.Ctx) {
 		want, _ := goxRunOnce(dir, sc, 1, false, nil)
 		outcomes := map[string]int{}
 		e := &gox.Explorer{MaxPreempt: maxP, MaxMapDev: maxD, MaxSwitch: maxS, Stop: c.Expired}
+		if c.Thorough() {
+			e.Shard, e.NShards = c.Shard, c.N
+		}
 		var got string
 		nontrivial := int64(0)
 		body := func() {}
@@ -249,7 +256,16 @@ func c12Run(c *core.Ctx) {
 			sites = append(sites, s)
 			c.Observe("map_iteration_sites_reached", s)
 		}
-		c.Observe("scenarios", fmt.Sprintf("%s: %d executions, %d tasks max, %d choice points max, %d distinct outcomes", sc.Name, e.Executions, e.MaxTasks, e.MaxPoints, len(outcomes)))
+		if c.Thorough() {
+			// the schedule tree of one scenario is spread over the workers: per-scenario totals are counters
+			c.Observe("scenarios", sc.Name)
+			c.Add("executions["+sc.Name+"]", int64(e.Executions))
+			for o := range outcomes {
+				c.Observe("outcomes["+sc.Name+"]", fmt.Sprintf("%x", h64s(o)))
+			}
+		} else {
+			c.Observe("scenarios", fmt.Sprintf("%s: %d executions, %d tasks max, %d choice points max, %d distinct outcomes", sc.Name, e.Executions, e.MaxTasks, e.MaxPoints, len(outcomes)))
+		}
 		if e.Capped {
 			c.Incomplete("scenario " + sc.Name + ": time budget reached before all schedules within the bound were run")
 		}
